@@ -3,7 +3,7 @@
 import json, os
 from vp import val, coqrun, rustrun
 from vp.val import cN, cZ, cbool, clist, cpair, cbytes
-from gen import c17wire, c17enum, c17typed
+from gen import c17wire, c17enum, c17typed, c17held
 
 # ---------------------------------------------------------------- constants
 ORIGIN, AS_PATH, NEXTHOP, MED, LOCAL_PREF, ATOMIC, AGGREGATOR, COMMUNITY, ORIGINATOR_ID, CLUSTER_LIST = range(1, 11)
@@ -311,6 +311,9 @@ def oracle_xnlri(c, obs):
         x = expand(c['x'])
         if (x[7] == 0 or not x[8]) and (obs[5][7] != 0 or obs[5][8]):
             return 'not stored faithfully: a MUP Type 1 route given without a source address is listed with one'
+    why = c17held.mup_t1_listing_wrong(obs[5])
+    if why:
+        return 'an accepted MUP Type 1 route is not shown as it is: ' + why
     if c['x'][0] == 18:
         why = lsn_must_refuse(expand(c['x']))
         if why:
@@ -862,7 +865,7 @@ class Prop:
     props_file = 'Props/C17.v'
     required_theorems = ['attr_roundtrip_up_to_flags', 'attr_roundtrip_core_outside_known', 'attr_roundtrip_core_refuted', 'from_api_total', 'from_api_preserves_wf', 'wire_values_are_wf', 'wf_is_safe_downstream', 'api_accepted_is_safe', 'nlri_roundtrip_core', 'net_from_api_preserves_wf', 'nlri_encode_safe', 'local_path_accepts_wf', 'evpn_roundtrip', 'evpn_from_api_preserves_wf', 'noncore_roundtrip_guarded', 'noncore_typed_from_api_wf', 'flowspec_roundtrip', 'flowspec_from_api_preserves_wf', 'srpolicy_roundtrip_and_wf', 'rtc_roundtrip_outside_known', 'rtc_roundtrip_refuted', 'rtc_from_api_preserves_wf',
                          'typed_from_api_total', 'prefix_sid_accepted_wf', 'prefix_sid_roundtrip', 'tunnel_encap_accepted_wf', 'tunnel_encap_roundtrip',
-                         'mup_roundtrip', 'mup_from_api_preserves_wf']
+                         'mup_roundtrip', 'mup_from_api_preserves_wf', 'mup_decoded_is_wf', 'mup_held_roundtrip']
     correspondence_name = ('Model/Api.v (wire_accept, to_api, from_api, net_from_api, nlri_to_api, local_path, as_path_length, encode_attr, rib_cmp, encode_nlri) vs '
                            'daemon/src/convert.rs attr_to_api / attr_from_api / nlri_to_api / net_from_api, event/grpc.rs GrpcService::local_path, '
                            'packet Attribute::{decode via PeerCodec::parse_message, as_path_length, encode_to_bytes}, Nlri::encode_to_bytes, '
@@ -877,6 +880,10 @@ class Prop:
             'a PrefixSid message whose prost maps hold several keys is compared on accepted? only, their iteration order is not fixed) and judged by a normal-form oracle (refused, or listed as given); the LsAttribute message is NOT modelled and judged by the oracle only (every field within its wire width or refused, decoder reads the value back, relists unchanged); '
             'gen/c17typed.py ENUMERATES 74 further classes (696 cases: every oneof unset, every bounded field at bound and bound + 1, SID lengths 0/4/15/16/17, every flag alone, each one-per-path sub-TLV twice, '
             'names around the two-octet length, values around 65535 octets, tunnel types around u16; LS attribute: SR ranges around the 20-bit label / 24-bit size / u32 wrap, delays and IGP metric around 24 bits, labels around 20 bits, weights / flags / algorithms around 255, every address spelling, 0/1/7/8/9 unreserved-bandwidth values); '
+            '(10) NLRI octets as a peer sends them in an MP_REACH of a family, decoded by the repository decoder (the values the RIB can hold), each listed by nlri_to_api and given back to net_from_api + the family check (must be the identical value); '
+            'MUP is compared with the decoder model (mup_decode_all: decoded?, Nlri::encode octets, listing, given back), the other families are judged by the oracle; gen/c17held.py ENUMERATES 26 classes (1704 cases) on the boundary '
+            '"the decoder keeps whole octets, the API side checks bits": MUP Type 2 endpoint lengths 32..64 / 128..160 with the spare bits of the last TEID octet set and clear, prefix lengths not a multiple of 8 with spare bits set / clear / all ones for '
+            'IP, labeled, VPN, EVPN type 5, flowspec prefix components (and IPv6 offsets), MUP ISD / Type 1, BGP-LS reachability, every RTC length 0..96 and the SR Policy length field; '
             'these kinds are modelled and compared with the model value for value. '
             'gen/c17enum.py ENUMERATES 137 classes (about 4400 cases) on every run, one per clause / branch / comparison of the anchored functions with values on both sides of each boundary '
             '(every flags octet; value lengths around each type rule; segment counts 0/1/63/64/65/127/128/129/254/255/256/257 with AS numbers whose octets look like segment headers; 255/256 and 65535/65536-octet values; '
@@ -905,7 +912,8 @@ class Prop:
         'and the typed listing on the stored tree: theorems typed_from_api_total, prefix_sid_*, tunnel_encap_*); their wire DECODERS are not modelled: that the decoder reads the stored value back is an observation of the harness judged by the oracle, '
         'and the one place where the listing depends on the decoder (a type B segment structure is read only under flag 0x40) enters the model as a stated rule of seg_to_api; std::str::from_utf8 is the Gallina function utf8_valid (compared, not proved). '
         'For these two and the BGP-LS attribute the lossless-or-raw wrapper of attr_to_api is modelled with the typed converters as uninterpreted functions (theorems noncore_*); the typed BGP-LS attribute message (ls_tlvs_from_api) is NOT modelled: it is exercised from the API side by kind 9 with the oracle alone, and from the wire side by the wide differential part; '
-        'MUP NLRI (four route types, prefix text with rsplit_once / u8::from_str, Type 2 endpoint-length rule, encoding) is modelled from the API side; its wire decoder is not (the harness checks that the decoder gives the accepted value back). '
+        'MUP NLRI (four route types, prefix text with rsplit_once / u8::from_str, Type 2 endpoint-length rule, encoding) is modelled from the API side AND from the wire side (MupNlri::decode and the four route decoders: theorems mup_decoded_is_wf, mup_held_roundtrip); '
+        'for the other families the held direction (decoded value -> API -> back) is exercised by kind 10 with the oracle alone: their decoders are not modelled. '
         'The BGP-LS NLRI family is not modelled; it is reached from the wire side by the wide differential part only (sampling, no proof): the property is claimed partial for it',
         'the wire decoder is modelled only as far as C17 needs it (Attribute::decode in four-octet-AS form and the per-attribute admission of the UPDATE arm); '
         'two-octet-AS sessions, treat-as-withdraw and NLRI decoding are exercised by the wide part only',
@@ -940,6 +948,7 @@ class Prop:
         if c['k'] == 5: return [5, c['fam'], c['nlri'], expand(c['attrs']), c['id']]
         if c['k'] == 8: return [8, c['fam'], expand(c['x'])]
         if c['k'] == 9: return [9, c['w'], expand(c['msg'])]
+        if c['k'] == 10: return [10, c['fam'], c['b']]
         if c['k'] == 6: return [6, c['api']]
         if c['k'] == 7: return [7, evpn_to_valx(c['e'], out=False)]
         raise ValueError(c)
@@ -952,6 +961,9 @@ class Prop:
         if c['k'] == 4: return '(VL [])'     # the wide part has no model: judged by the oracle only
         if c['k'] == 8: return xnlri_to_coq(c) if xnlri_modelled(c) else '(VL [])'
         if c['k'] == 9: return c17typed.typed_to_coq(c)
+        if c['k'] == 10:
+            if c['fam'] in (c17held.MUP4, c17held.MUP6): return 'run_held_mup_case %s %s' % (cbool(c['fam'] == c17held.MUP6), cbytes(c['b']))
+            return '(VL [])'
         if c['k'] == 6: return 'run_api_evpn_case %s' % api_evpn_to_coq(c['api'])
         if c['k'] == 7: return 'run_evpn_case %s' % evpn_to_coq(c['e'])
         if c['k'] == 5:
@@ -961,7 +973,7 @@ class Prop:
 
     # ---- generation
     def gen_cases(self, rng, tier):
-        cases = c17enum.enum_all() + c17typed.enum_typed()      # the classes enumerated on every run come first
+        cases = c17enum.enum_all() + c17typed.enum_typed() + c17held.enum_held()      # the classes enumerated on every run come first
         nw, na = (900, 1300) if tier == 'quick' else (9000, 13000)
         for code in WIRE_CODES + WIRE_SPECIAL + UNKNOWN_CODES[:6]:
             for _ in range(6):
@@ -983,6 +995,14 @@ class Prop:
             cases.append(c17typed.gen_typed_case(rng))
         for _ in range(150 if tier == 'quick' else 1500):
             cases.append(c17enum.gen_ls_nlri_case(rng))
+        # NLRIs as a peer sends them, held, listed and given back: MUP against the decoder model, the other families by the oracle
+        for _ in range(400 if tier == 'quick' else 4000):
+            fam = rng.choice(list(c17wire.FAMILIES))
+            if rng.random() < 0.35: fam = rng.choice(('mup4', 'mup6')) if 'mup4' in c17wire.FAMILIES else fam
+            afi, safi = c17wire.FAMILIES[fam]
+            b = []
+            for _ in range(rng.choice((1, 1, 1, 2))): b += c17wire.gen_nlri(rng, fam)
+            cases.append({'k': 10, 'fam': (afi << 16) | safi, 'b': b})
         nn = 500 if tier == 'quick' else 5000
         for _ in range(nn):
             cases.append(gen_api_nlri_case(rng))
@@ -1032,6 +1052,10 @@ class Prop:
     def canon(self, case, obs):
         if case['k'] == 9:
             return c17typed.typed_canon(case, obs)
+        if case['k'] == 10:
+            if case['fam'] not in (c17held.MUP4, c17held.MUP6): return []      # the other decoders are not modelled
+            if obs and obs[0] == 1: return [1, [e[-3:] for e in obs[1]]]       # encode octets, listed form, given back
+            return obs
         if case['k'] == 4 or (case['k'] == 8 and not xnlri_modelled(case)):
             return []       # not modelled (differential testing of the real round trip only)
         if case['k'] == 8 and len(obs) == 6:
@@ -1117,6 +1141,8 @@ class Prop:
             return oracle_xnlri(c, obs)
         if c['k'] == 9:
             return c17typed.oracle_typed(c, obs)
+        if c['k'] == 10:
+            return c17held.oracle_held(c, obs)
         if c['k'] == 6:
             if obs[0] == 0:
                 return None
@@ -1174,6 +1200,8 @@ class Prop:
             return why.startswith('wide[%s]:' % kf['id'])
         if c['k'] == 8:
             return why.startswith('xnlri[%s]:' % kf['id'])
+        if c['k'] == 10:
+            return why.startswith('held[%s]:' % kf['id'])
         if kf['id'] == 'C17-flags':
             # a held attribute of a defined type whose stored flags are not the canonical ones
             return c['k'] == 0 and obs[0] == 1 and obs[1][0] in CANON and obs[1][1] != CANON[obs[1][0]] \
@@ -1183,7 +1211,7 @@ class Prop:
     def nontrivial_key(self, c, obs):
         if obs == [-1] or not obs:
             return None
-        if c['k'] in (0, 1, 2, 5, 6, 8, 9) and obs[0] == 1:
+        if c['k'] in (0, 1, 2, 5, 6, 8, 9, 10) and obs[0] == 1:
             return json.dumps(self.case_to_val(c))
         if c['k'] == 7 and not wf_evpn(evpn_to_valx(c['e'])):
             return json.dumps(self.case_to_val(c))
@@ -1218,6 +1246,8 @@ class Prop:
             return ['xnlri', 'xnlri:%s:%s' % ({10: 'flowspec', 11: 'flowspec_vpn', 12: 'srpolicy', 13: 'rtc', 14: 'mup_isd', 15: 'mup_dsd', 16: 'mup_t1st', 17: 'mup_t2st', 18: 'ls_nlri'}.get(c['x'][0]), 'accepted' if obs and obs[0] == 1 else 'refused')]
         if c['k'] == 9:
             return ['typed', 'typed:%s:%s' % ({0: 'prefix_sid', 1: 'tunnel_encap', 2: 'ls_attribute'}[c['w']], 'accepted' if obs and obs[0] == 1 else 'refused')]
+        if c['k'] == 10:
+            return ['held', 'held:afi%d_safi%d:%s' % (c['fam'] >> 16, c['fam'] & 0xffff, 'decoded_%d' % min(len(obs[1]), 2) if obs and obs[0] == 1 else 'not_decoded')]
         if c['k'] == 5:
             return ['local_path', 'local_path:%s:attrs_%d' % ('accepted' if obs and obs[0] == 1 else 'rejected', min(len(c['attrs']), 4))]
         if c['k'] == 4:
